@@ -1,6 +1,7 @@
 /-
   C15, layer M: statement-level port of `check_model` and `distinguishable_paths`
-  (xmlschema/validators/models.py:36-174, including the `max_occurs == 0` skip of commit 566492d)
+  (xmlschema/validators/models.py:36-180, including the `max_occurs == 0` skips of commits 566492d
+  (nested particles) and 3bbfd3c (root group))
   over the arena of Model/Particle, with the overlap / consistency tests of elements
   (elements.py:1205-1228 XSD 1.0, 1365-1413 XSD 1.1) and wildcards (wildcards.py:586-630, 755-805;
   wildcard pairs: `isOverlap` of Model/Wildcard).
@@ -12,6 +13,7 @@
   insertion order.  No Mathlib import.
 -/
 import XsVerif.Model.Particle
+import XsVerif.Model.Upa
 
 namespace XsVerif.CM
 open XsVerif.Wildcard
@@ -30,9 +32,6 @@ structure Ctx where
   einfo : Array (Option EInfo)
   defined : List QN                 -- names of `maps.elements` (for `##defined`)
   v11 : Bool
-  /-- proposed repair notes/fixes/C15-root-maxoccurs-zero.patch: `check_model` returns at once for
-      a root group with `maxOccurs = 0`.  `false` = the code as it is. -/
-  skipEmptyRoot : Bool := false
   deriving Inhabited
 
 section
@@ -167,7 +166,7 @@ def Ctx.distinguishable (path1 path2 : List Nat) : Bool :=
 
 mutual
 /-- `safe_iter_path`: the leaves in document order with their `current_path`, skipping every
-    item with `max_occurs == 0` (but not the root group itself) -/
+    item with `max_occurs == 0` (the root group itself is tested in `Ctx.visited`) -/
 def Particle.leafPaths (path : List Nat) : Particle → List (Nat × List Nat)
   | .leaf l _ _ => [(l.id, path)]
   | .group i _ _ _ ps => ps.leafPaths (path ++ [i])
@@ -257,12 +256,22 @@ def Ctx.outer : List (Nat × List Nat) → List Entry → Acc → CMResult
     | (acc, some err) => ⟨some err, acc.precs, acc.trace⟩
     | (acc, none) => Ctx.outer rest (dictSet d ⟨M.key e, e, cp⟩) acc
 
-/-- the particles `check_model` visits, with their paths -/
-def Ctx.visited (p : Particle) : List (Nat × List Nat) :=
-  if M.skipEmptyRoot && p.maxIsZero then [] else p.leafPaths []
+/-- the particles `check_model` visits, with their paths.  A root group with `maxOccurs = 0` is an
+    empty content model: `check_model` returns at once (models.py:133-134, commit 3bbfd3c). -/
+def Ctx.visited (_M : Ctx) (p : Particle) : List (Nat × List Nat) :=
+  if p.maxIsZero then [] else p.leafPaths []
 
 /-- M: `check_model(group)` -/
 def Ctx.checkModel (p : Particle) : CMResult := M.outer (M.visited p) [] {}
+
+/-- the tie between the two things the harness serialises for one model: the type table `T` given to the
+    specification lists, for every visited element particle, the declaration the port reads for it
+    (`e.name`, `e.type`) and its substitutes (`e.iter_substitutes()`).  Evaluated by the driver on every
+    explored model; hypothesis of `checkModel_edc_error_sound`. -/
+def Ctx.tableCovers (T : TypeTable) (p : Particle) : Bool :=
+  ((M.visited p).map (·.1)).all fun i => !M.isElem i ||
+    ((declsOf T p).contains ((M.info i).name, (M.info i).ty) &&
+      (M.info i).subs.all fun s => (declsOf T p).contains s)
 
 /-- verdict only -/
 def Ctx.accepts (p : Particle) : Bool := (M.checkModel p).err.isNone
@@ -270,10 +279,9 @@ def Ctx.accepts (p : Particle) : Bool := (M.checkModel p).err.isNone
 end
 
 /-- the `Ctx` of a particle tree with the given per-element information -/
-def mkCtx (v11 : Bool) (n : Nat) (nodes : List (Nat × Node)) (infos : List (Nat × EInfo)) (defined : List QN)
-    (skipEmptyRoot : Bool := false) : Ctx :=
+def mkCtx (v11 : Bool) (n : Nat) (nodes : List (Nat × Node)) (infos : List (Nat × EInfo)) (defined : List QN) : Ctx :=
   { A := mkArena n nodes
     einfo := infos.foldl (fun a (i, x) => a.setIfInBounds i (some x)) (Array.replicate n none)
-    defined, v11, skipEmptyRoot }
+    defined, v11 }
 
 end XsVerif.CM
